@@ -238,3 +238,206 @@ GROUND = [Bounded('spec_calendar_vs_datetime', spec_vs_datetime)]
 NOT_DECIDED = [
     'years 1..9999: calendar arithmetic is delegated to datetime (assumed contract T-DT)',
 ]
+
+
+# ======================================================================================================================
+# BOUNDED stand-in: the timeline methods of the date/time classes (todelta, fromdelta, _compare, _operation and the
+# adjust-to-timezone helpers build and take apart datetime.datetime objects: outside the deductive subset).  Reference:
+# an integer day count of the proleptic Gregorian calendar written here (civil-from-days arithmetic), exact rationals for
+# the time of day.
+# ======================================================================================================================
+from fractions import Fraction              # noqa: E402
+import itertools                            # noqa: E402
+from elementpath import XPathContext        # noqa: E402
+from elementpath.exceptions import ElementPathError     # noqa: E402
+from elementpath.xpath31 import XPath31Parser           # noqa: E402
+
+
+def _days_from_civil(y, m, d):
+    """Days from 0001-01-01 (astronomical year numbering, year 0 exists)."""
+    y -= m <= 2
+    era = y // 400           # floor division (the C original truncates, hence its y - 399 adjustment)
+    yoe = y - era * 400
+    doy = (153 * (m + (-3 if m > 2 else 9)) + 2) // 5 + d - 1
+    doe = yoe * 365 + yoe // 4 - yoe // 100 + doy
+    return era * 146097 + doe - 306        # 0001-01-01 -> 0
+
+
+def _civil_from_days(z):
+    z += 306
+    era = z // 146097
+    doe = z - era * 146097
+    yoe = (doe - doe // 1460 + doe // 36524 - doe // 146096) // 365
+    y = yoe + era * 400
+    doy = doe - (365 * yoe + yoe // 4 - yoe // 100)
+    mp = (5 * doy + 2) // 153
+    d = doy - (153 * mp + 2) // 5 + 1
+    m = mp + (3 if mp < 10 else -9)
+    return y + (m <= 2), m, d
+
+
+def _lex(y_astro, version):
+    """Lexical year of an astronomical year for an XSD version."""
+    y = y_astro if version == '1.1' or y_astro > 0 else y_astro - 1
+    return ('-' if y < 0 else '') + f'{abs(y):04d}'
+
+
+def _instant(y_astro, mo, d, h, mi, s, tz_minutes):
+    """Seconds from 0001-01-01T00:00:00Z as an exact rational (no timezone = UTC, the implicit timezone of the context used)."""
+    return Fraction(_days_from_civil(y_astro, mo, d)) * 86400 + h * 3600 + mi * 60 + Fraction(s) - (tz_minutes or 0) * 60
+
+
+def _dt_text(y_astro, mo, d, h, mi, s, tz, version):
+    sec = f'{int(s):02d}' + (f'{float(Fraction(s) % 1):.3f}'[1:].rstrip('0').rstrip('.') if Fraction(s) % 1 else '')
+    t = f'{_lex(y_astro, version)}-{mo:02d}-{d:02d}T{h:02d}:{mi:02d}:{sec}'
+    if tz is not None:
+        t += 'Z' if tz == 0 else ('+' if tz > 0 else '-') + f'{abs(tz) // 60:02d}:{abs(tz) % 60:02d}'
+    return t
+
+
+def _seconds_of_duration(v):
+    """xs:dayTimeDuration value -> exact seconds (through its canonical string, parsed here)."""
+    import re
+    m = re.fullmatch(r'(-)?P(?:(\d+)D)?(?:T(?:(\d+)H)?(?:(\d+)M)?(?:(\d+(?:\.\d+)?)S)?)?', str(v))
+    if not m:
+        return None
+    sign, dd, hh, mm, ss = m.groups()
+    tot = int(dd or 0) * 86400 + int(hh or 0) * 3600 + int(mm or 0) * 60 + Fraction(ss or 0)
+    return -tot if sign else tot
+
+
+def timeline_vs_reference(tier, seed):
+    fam, n = {}, 0
+
+    def bad(k, **w):
+        fam.setdefault(k, []).append(w)
+    years = [-10001, -10000, -9999, -401, -400, -101, -5, -4, -1, 0, 1, 2, 4, 100, 400, 1900, 2000, 9999, 10000, 10001, 12000]
+    days = [(1, 1), (2, 28), (2, 29), (3, 1), (12, 31)]
+    times = [(0, 0, 0), (0, 30, 0), (23, 59, Fraction(119, 2))]
+    tzs = [None, 0, 300, -840]
+    if tier == 'quick':
+        years = [y for y in years if y not in (-401, -101, 2, 100, 1900, 10001)]
+    for version in ('1.0', '1.1'):
+        parser = XPath31Parser(xsd_version=version)
+        sub = parser.parse('$a - $b')
+        add = parser.parse('$a + $d')
+        cmp_toks = {op: parser.parse(f'$a {op} $b') for op in ('eq', 'lt', 'gt', 'le')}
+        mk = parser.parse('xs:dateTime($t)')
+        mkdur = parser.parse('xs:dayTimeDuration($t)')
+
+        def ev(tok, **v):
+            try:
+                return 'ok', tok.evaluate(XPathContext(root=None, item=1, variables=v, timezone='Z'))
+            except ElementPathError as e:
+                return 'err', e.code
+            except Exception as e:      # noqa
+                return 'crash', f'{type(e).__name__}: {e}'
+        vals = []
+        for y, (mo, d), t, tz in itertools.product(years, days, times, tzs):
+            if (mo, d) == (2, 29) and not (y % 4 == 0 and (y % 100 != 0 or y % 400 == 0)):
+                continue
+            if tier == 'quick' and (len(vals) % 3 == 1) and y not in (-1, 0, 1, 9999, 10000):
+                vals.append(None)
+                continue
+            text = _dt_text(y, mo, d, *t, tz, version)
+            st, v = ev(mk, t=text)
+            if st != 'ok':
+                bad('a valid xs:dateTime is rejected', text=text, xsd=version, got=repr(v)[:80])
+                vals.append(None)
+                continue
+            vals.append((text, v, _instant(y, mo, d, *t, tz)))
+        vals = [x for x in vals if x is not None]
+        rng = random.Random(20260925)
+        pairs = [(a, b) for a in vals for b in vals]
+        pairs = rng.sample(pairs, min(len(pairs), 1500 if tier == 'quick' else 20000))
+        for (ta, a, ia), (tb, b, ib) in pairs:
+            n += 1
+            w = dict(a=ta, b=tb, xsd=version)
+            for op, want in (('eq', ia == ib), ('lt', ia < ib), ('gt', ia > ib), ('le', ia <= ib)):
+                got = ev(cmp_toks[op], a=a, b=b)
+                if got != ('ok', want):
+                    bad(f'value comparison of dateTimes is not the timeline order ({_range_family(ta, tb)})', **w, op=op, got=repr(got)[:60], want=want)
+                    break
+            st, dlt = ev(sub, a=a, b=b)
+            if st != 'ok':
+                if st == 'crash':
+                    bad('dateTime - dateTime raises a non-XPath error', **w, got=dlt[:80])
+                continue
+            secs = _seconds_of_duration(dlt)
+            if secs is None or secs != ia - ib:
+                bad(f'dateTime - dateTime is not the elapsed time ({_range_family(ta, tb)})', **w, got=str(dlt), want=f'{float(ia - ib)} s')
+        durs = ['P1D', 'P366D', '-P366D', 'PT1H', '-PT30M', 'P365D', 'P146097D', '-P146097D', 'PT0.5S', '-P1D', 'P3652425D']
+        for (ta, a, ia) in vals:
+            for dt_ in durs[: (5 if tier == 'quick' else 11)]:
+                n += 1
+                st, d = ev(mkdur, t=dt_)
+                st, r = ev(add, a=a, d=d)
+                if st != 'ok':
+                    continue
+                want = ia + _seconds_of_duration(d)
+                # read the result back through its string
+                import re
+                m = re.fullmatch(r'(-?\d{4,})-(\d\d)-(\d\d)T(\d\d):(\d\d):(\d\d(?:\.\d+)?)(Z|[+-]\d\d:\d\d)?', str(r))
+                if not m:
+                    bad('dateTime + duration: the result has no dateTime string', a=ta, dur=dt_, got=str(r))
+                    continue
+                ly = int(m.group(1))
+                ya = ly if version == '1.1' or ly > 0 else ly + 1
+                tzm = None if not m.group(7) else 0 if m.group(7) == 'Z' else (1 if m.group(7)[0] == '+' else -1) * (int(m.group(7)[1:3]) * 60 + int(m.group(7)[4:6]))
+                got = _instant(ya, int(m.group(2)), int(m.group(3)), int(m.group(4)), int(m.group(5)), Fraction(m.group(6)), tzm)
+                if got != want:
+                    bad(f'dateTime + dayTimeDuration is not the shifted instant ({_range_family(ta, str(r))})', a=ta, dur=dt_, xsd=version, got=str(r),
+                        off_by_seconds=float(got - want))
+                st2, back = ev(sub, a=r, b=d) if False else ev(parser.parse('$r - $d'), r=r, d=d)
+                if st2 == 'ok' and ev(cmp_toks['eq'], a=back, b=a) != ('ok', True):
+                    bad('(d + dur) - dur is not d', a=ta, dur=dt_, xsd=version, got=str(back))
+    # frame: the adjust-to-timezone functions and arithmetic do not modify their operands
+    from elementpath.datatypes import DateTime, Date, Time, DayTimeDuration
+    for expr, mkv in (("adjust-dateTime-to-timezone($d)", lambda: DateTime.fromstring('2000-01-01T12:00:00')),
+                      ("adjust-dateTime-to-timezone($d, ())", lambda: DateTime.fromstring('2000-01-01T12:00:00+05:00')),
+                      ("adjust-dateTime-to-timezone($d, xs:dayTimeDuration('PT2H'))", lambda: DateTime.fromstring('2000-01-01T12:00:00')),
+                      ("adjust-date-to-timezone($d)", lambda: Date.fromstring('2000-01-01')), ("adjust-date-to-timezone($d, ())", lambda: Date.fromstring('2000-01-01Z')),
+                      ("adjust-time-to-timezone($d)", lambda: Time.fromstring('12:00:00')), ("adjust-time-to-timezone($d, xs:dayTimeDuration('-PT5H'))", lambda: Time.fromstring('12:00:00')),
+                      ("$d + xs:dayTimeDuration('P1D')", lambda: DateTime.fromstring('2000-01-01T12:00:00')), ("$d - $d", lambda: DateTime.fromstring('2000-01-01T12:00:00Z')),
+                      ("for $x in $d return (adjust-dateTime-to-timezone($x), timezone-from-dateTime($x))", lambda: DateTime.fromstring('2000-01-01T12:00:00'))):
+        n += 1
+        v = mkv()
+        before = (str(v), v.tzinfo, hash(v))
+        try:
+            XPath31Parser().parse(expr).evaluate(XPathContext(root=None, item=1, variables={'d': v}, timezone='+01:00'))
+        except ElementPathError:
+            pass
+        after = (str(v), v.tzinfo, hash(v))
+        if before != after:
+            bad('a date/time function modifies its argument (the value bound to a variable)', expr=expr, before=before[0], after=after[0])
+    fails = [{'key': k, 'items': it[:4], 'count': len(it), 'what': f'{k}: e.g. {it[0]}'} for k, it in fam.items()]
+    return {'evaluations': n, 'distinct': n, 'exhaustive': False,
+            'scope': f'dateTimes on a boundary grid: {len(years)} astronomical years (around -10000, -400, -4, 0, 1, 9999/10000, 12000) x 5 days (incl. 29 February) x 3 '
+            'times of day x 4 timezones, XSD 1.0 and 1.1: comparisons and differences of sampled pairs against an integer day-count reference (exact rationals), '
+            'addition of 5/11 dayTimeDurations read back through the result string, (d + dur) - dur = d; argument-frame of the adjust-to-timezone functions', 'failures': fails}
+
+
+def _range_family(ta, tb):
+    def y(t):
+        import re
+        return int(re.match(r'-?\d+', t).group(0))
+    ys = (y(ta), y(tb))
+    if any(v > 9999 for v in ys):
+        return 'years beyond 9999'
+    if any(v <= 0 for v in ys):
+        return 'year 0 / BCE'
+    return 'years 1..9999'
+
+
+import random       # noqa: E402
+
+_CACHE = {}
+
+
+def _replay_timeline(f):
+    if 'r' not in _CACHE:
+        _CACHE['r'] = timeline_vs_reference('quick', 0)
+    return all(x['key'] != f['key'] for x in _CACHE['r']['failures'])
+
+
+BOUNDED = [Bounded('timeline_vs_integer_day_count_reference', timeline_vs_reference, _replay_timeline)]
